@@ -497,9 +497,11 @@ func getIdx(th *Thread, su *Summarize, _ Dir) Row {
 
 func (su *Summarize) Lookup(th *Thread, sels Sels) Row {
 	su.nlooks++
-	if su.unique {
+	if su.unique && len(su.by) > 0 {
 		// by is a key, so the source row uniquely determines the group,
 		// like Project Lookup does when projCopy.
+		// Not when there is no by (the source has an empty key)
+		// because then the source is not set up for Lookup.
 		var bySels Sels
 		for _, sel := range sels {
 			if slices.Contains(su.by, sel.col) {
